@@ -367,7 +367,7 @@ class UnderscoreDomain(Domain):
     def _scan(self, node, st):
         k = self.keyname
         for n in ast.walk(node):
-            if isinstance(n, ast.Call) and len(n.args) == 2 and \
+            if isinstance(n, ast.Call) and len(n.args) in (2, 3) and \
                     norm(n.args[0]) == 'self.inst':
                 self.reads += 1
                 a = n.args[1]
